@@ -12,14 +12,8 @@ def build(repo, findings):
     end_ast(u, 'C02')
     u.prelude('exec/subshell_spec.rs')
     fn = 'subshell_arm'
-    # `execute` is defined many times in interp.rs; locate the slice through the impl block of CompoundCommand
-    imp = interp.item(r'^impl Execute for ast::CompoundCommand ', 'impl Execute for ast::CompoundCommand', with_attrs=False)
-    from vx.extract import Source
-    tmp = Source.__new__(Source)
-    tmp.repo, tmp.rel, tmp.path, tmp.text = interp.repo, interp.rel, interp.path, imp.text
-    f = tmp.slice('execute', r'^\s*let mut subshell = shell\.clone\(\);', r'^\s*Ok\(ExecutionResult::from\(subshell_result\.exit_code\)\)$',
-                  'fn subshell_arm(shell: &mut Shell, params: &ExecutionParameters, list: &ast::CompoundList) -> Result<ExecutionResult, error::Error>', fn)
-    f.line += imp.line - 1
+    f = interp.block_slice(r'^\s*Self::Subshell\(ast::SubshellCommand \{ list, \.\. \}\) => \{$',
+                           'fn subshell_arm(shell: &mut Shell, params: &ExecutionParameters, list: &ast::CompoundList) -> Result<ExecutionResult, error::Error>', fn)
     f.r1().r3()
     f.resub(r'^[ \t]*let mut stderr = params\.stderr\(shell\);\n', '', 'R2', 'stderr handle used only by the dropped diagnostic', count=None)
     f.resub(r'^[ \t]*let _ = shell\.display_error\([^;]*\);\n', '', 'R2', 'diagnostic whose result is discarded dropped', count=None)
